@@ -209,6 +209,12 @@ def build(node):
         for v in vals:
             r = getattr(r, LOOK_METHOD[kind])(v)
         return r
+    if k == 'bref':
+        return A['Backreference'](node[1])
+    if k == 'cond':
+        if node[3] is None:
+            return A['Conditional'](node[1], arg(node[2]))
+        return A['Conditional'](node[1], arg(node[2]), arg(node[3]))
     raise ValueError(f'unknown node {node!r}')
 
 
@@ -297,6 +303,10 @@ def render(node):
         if sp == 'class':
             return f'{LOOK_CLASS[kind]}(' + ', '.join([render_arg(x)] + [render_arg(a) for a in as_]) + ')'
         return _recv(x) + ''.join(f'.{LOOK_METHOD[kind]}({render_arg(a)})' for a in as_)
+    if k == 'bref':
+        return f'Backreference({node[1]!r})'
+    if k == 'cond':
+        return f'Conditional({node[1]!r}, {render_arg(node[2])}' + (f', {render_arg(node[3])})' if node[3] is not None else ')')
     raise ValueError(node)
 
 
@@ -669,6 +679,18 @@ def model(node, leaf_mode='own'):
         for a in as_:
             x = m_look(x, node[1], a)
         return x
+    if k == 'bref':
+        ref = node[1]
+        return M(f'\\{ref}' if isinstance(ref, int) else f'(?P={ref})', lo=0, hi=None, wunspec=True, nops=1)
+    if k == 'cond':
+        x = model(node[2], leaf_mode)
+        y = model(node[3], leaf_mode) if node[3] is not None else None
+        yes = '' if x.empty else _w(x.ref)
+        no = '' if y is None else ('|' + ('' if y.empty else _w(y.ref)))
+        caps = x.caps + (y.caps if y is not None else ())
+        _check_dups(caps)
+        return M(f'(?({node[1]}){yes}{no})', lo=0, hi=None, has_assert=x.has_assert or (y is not None and y.has_assert), caps=caps,
+                 wunspec=True, nops=1 + x.nops + (y.nops if y is not None else 0))
     raise ValueError(node)
 
 
@@ -689,6 +711,8 @@ def children(node):
         return [node[3]]
     if k == 'look':
         return [node[3]] + list(node[4])
+    if k == 'cond':
+        return [node[2]] + ([node[3]] if node[3] is not None else [])
     return []
 
 
@@ -824,6 +848,11 @@ def witnesses(node, rng, k=3):
             else:
                 out = [rng.choice(ws) + o + rng.choice(ws) for o in out] + (out if kind == 'neb' else [])
         return out[:k + 2]
+    if t == 'cond':
+        out = witnesses(node[2], rng, 2)
+        if node[3] is not None:
+            out += witnesses(node[3], rng, 2)
+        return out
     return ['']
 
 
@@ -1049,6 +1078,9 @@ def uniquify_names(node):
         elif k == 'look':
             out[3] = go(n[3])
             out[4] = [go(x) for x in n[4]]
+        elif k == 'cond':
+            out[2] = go(n[2])
+            out[3] = go(n[3]) if n[3] is not None else None
         return out
     return go(node)
 
@@ -1062,3 +1094,56 @@ def swarm_features(seed, shard_index):
     if not any(f in feats for f in ('cat', 'alt', 'q', 'grp', 'cap')):
         feats.append(rng.choice(['cat', 'alt', 'q']))
     return feats
+
+
+def with_reference(tree, refspec, leaf_mode='own'):
+    """Append a backreference / conditional that refers to a capturing group of `tree` (closed, to its left).
+
+    refspec = {'kind': 'bref'|'cond', 'pick': int, 'by_name': bool, 'then': tree, 'else': tree|None, 'tail': tree|None,
+               'sp': concat spelling}. Returns the combined tree, or None when `tree` has no usable capture.
+    A witness of the referenced group is what the reference matches again, so texts double the group's witness."""
+    try:
+        m = model(tree, leaf_mode)
+    except (Unspec, Expect):
+        return None
+    except Exception:  # noqa: BLE001
+        return None
+    if m.empty or not m.caps:
+        return None
+    i = refspec['pick'] % len(m.caps)
+    name = m.caps[i]
+    if refspec['kind'] == 'bref':
+        ref = name if (refspec['by_name'] and name is not None) else i + 1
+        node = ['bref', ref]
+    else:
+        if name is None:
+            named = [c for c in m.caps if c is not None]
+            if not named:
+                return None
+            name = named[refspec['pick'] % len(named)]
+        node = ['cond', name, refspec['then'], refspec.get('else')]
+    w = refspec.get('wrap')
+    if w:
+        if w[0] == 'cap':
+            node = ['cap', w[1], node, w[2]]
+        elif w[0] == 'grp':
+            node = ['grp', w[1], node, w[2]]
+        elif w[0] == 'opt':
+            node = ['q', 'opt', w[1], node, 0, None, w[2]]
+        elif w[0] == 'rep':
+            node = ['q', 'range', w[1], node, 1, 2, w[2]]
+    parts = [tree, node] + ([refspec['tail']] if refspec.get('tail') is not None else [])
+    return uniquify_names(['cat', refspec.get('sp', 'class'), parts])
+
+
+def refspec_strategy(features=ALL_FEATURES):
+    from hypothesis import strategies as st
+    small = tree_strategy([f for f in features if f not in ('cap',)], max_leaves=2)
+    digits = st.sampled_from(['0', '1', '07', '9a']).map(lambda s: ['lit', s, True])
+    return st.one_of(st.none(), st.none(), st.fixed_dictionaries({
+        'kind': st.sampled_from(['bref', 'bref', 'cond']), 'pick': st.integers(0, 7), 'by_name': st.booleans(),
+        'then': small, 'else': st.one_of(st.none(), small), 'tail': st.one_of(st.none(), small, digits, digits),
+        'sp': st.sampled_from(['class', 'method', 'op', 'method_left']),
+        'wrap': st.one_of(st.none(), st.none(), st.tuples(st.sampled_from(['cap']), st.sampled_from(['class', 'method']),
+                                                           st.one_of(st.none(), st.sampled_from(['w1', 'w2']))).map(list),
+                          st.tuples(st.sampled_from(['grp', 'opt', 'rep']), st.sampled_from(['class', 'method']), st.booleans()).map(list))}))
